@@ -1,0 +1,15 @@
+//go:build verif
+// +build verif
+
+// Contracts for the verification machinery in /verif (comment-only; compiled only with -tags verif).
+package scanner
+
+//@ func NewLexer
+//@   requires config.Version != nil
+//@   ensures result != nil && fresh(result)
+//@   ensures result.phpVersion == config.Version && result.errHandlerFunc == config.ErrorHandlerFunc
+//@   ensures result.data == data && result.pe == len(data)
+//@   ensures result.p == 0 && result.ts == 0 && result.te == 0 && result.top == 0 && result.cs == 113
+//@   ensures result.tokenPool != nil && result.positionPool != nil
+//@   modifies nothing
+//@   props C09, C01, C06
